@@ -967,3 +967,14 @@ Example ex_level_files :
   level_file 10 = "10.mbtile".
 Proof. repeat split; reflexivity. Qed.
 End LevelFileNames.
+
+(* a skipped task (coverage False) leaves everything *)
+Lemma skipped_task_l b q msize t walked c : t_skip t = true -> cleanup_task b q msize t walked c = c.
+Proof. intros H. unfold cleanup_task, strategy. rewrite H. reflexivity. Qed.
+
+Lemma empty_coverage_l b q msize levels T all complete empties walked c :
+  In true empties ->
+  cleanup_task b q msize (mkTask levels T all complete (conf_skip empties)) walked c = c.
+Proof.
+  intros H. apply skipped_task_l. cbn [t_skip]. unfold conf_skip. apply existsb_exists. exists true. split; [exact H | reflexivity].
+Qed.
